@@ -71,6 +71,33 @@ def serve (g : PDeframer) (lenOf : List Byte → Nat) : Nat → AB → ARd → L
       ((h, p) :: rest, term)
     | (_, _, res) => ([], res)
 
+
+/-- the drain loop with an ARBITRARY destination schedule: zero-length destinations are allowed (such a read returns
+    `Ok(0)` without meaning end-of-stream, so the caller goes on); after the schedule is used up, 1-byte destinations -/
+def drainZ : Nat → PTake → List Nat → List Byte × PTake
+  | 0, t, _ => ([], t)
+  | fuel + 1, t, ds =>
+    let d := ds.head?.getD 1
+    let (x, t') := t.read d
+    if d = 0 then drainZ fuel t' ds.tail
+    else if x = [] then ([], t') else
+      let (rest, t'') := drainZ fuel t' ds.tail
+      (x ++ rest, t'')
+
+def zeros (ds : List Nat) : Nat := ds.count 0
+
+/-- the request loop with arbitrary destination schedules (one per request) -/
+def serveZ (g : PDeframer) (lenOf : List Byte → Nat) : Nat → AB → ARd → List Nat → List (List Byte × List Byte) × Res
+  | 0, _, _, _ => ([], .fuelOut)
+  | fuel + 1, b, r, ds =>
+    match pollLoop (liftDf g) (r.rem.length + 1) b r with
+    | (b', r', .frame h) =>
+      let n := lenOf h
+      let (p, t') := drainZ (zeros ds + min n (b'.q.length + r'.rem.length) + 1) { remaining := n, c := { done := false, b := b', r := r' } } ds
+      let (rest, term) := serveZ g lenOf fuel t'.c.b t'.c.r ds
+      ((h, p) :: rest, term)
+    | (_, _, res) => ([], res)
+
 /-- the specification: consecutive segments of the connection's byte stream -/
 def parseConn (size : Nat) (g : PDeframer) (lenOf : List Byte → Nat) : Nat → List Byte → List (List Byte × List Byte) × Res
   | 0, _ => ([], .fuelOut)
